@@ -222,7 +222,8 @@ class C12(Check):
             '(valid, non-object, empty, invalid, non-UTF-8, nested beyond the recursion limit), urlencoded text x content '
             'types (multipart quoted/unquoted/odd spellings/without or with a bad boundary, urlencoded, JSON spellings, other, '
             'none) x Content-Length (exact, short, long, 0, negative, absent) or chunked (valid, broken) x max_memfile_size x '
-            'max_body_size x read schedules x accessor sequences of 1-3 of body/json/POST/forms/files. non-trivial = the '
+            'max_body_size x read schedules x accessor sequences of 1-3 of body/json/POST/forms/files; the oracle also '
+            're-reads forms/files/POST/params after a failed access (same 4xx, never a mapping). non-trivial = the '
             'outcome list contains an error')
     assumptions = ['the body readers raise only RequestError subclasses or deliver parts (C04/C05/C13); CONTENT_LENGTH is an '
                    'integer literal',
@@ -295,6 +296,24 @@ class C12(Check):
             cls = m[-1].split('.')[-1] if m else '-'
             acc = c['accs'][len(res['outs']) - 1] if res['outs'] else '?'
             return f'status-{st}:{cls}', f'{fl.ACC_ATTR.get(acc, acc)} answered {st}: {res["errors"].strip().splitlines()[-1:] }'
+        # a failed form parse stays failed: once forms/files/POST raised a 4xx, every later access to
+        # forms/files/POST/params of that request raises the same 4xx - none returns a mapping
+        if any(a in 'pfF' for a in c['accs']):
+            again = dict(c, accs=list(c['accs']) + ['f', 'F', 'p', 'P', [a for a in c['accs'] if a in 'pfF'][0]])
+            try:
+                res2 = run_case(rig, again, record=False, catch=True)
+            except core.Hang:
+                return 'hang:' + hang_class(c), f'the request did not complete within {CALL_BUDGET} s of CPU time'
+            first = None
+            for a, o in zip(again['accs'], res2['outs']):
+                if a not in 'pfFP':
+                    continue
+                if first is None:
+                    if not o.startswith('ok'):
+                        first = (a, o)
+                elif o != first[1]:
+                    return ('reread-after-error:' + fl.ACC_ATTR[a],
+                            f'{fl.ACC_ATTR[first[0]]} answered {first[1]}, {fl.ACC_ATTR[a]} read afterwards answered {o[:80]}')
         # delivered fields
         if c['kind'] == 'multipart' and st == 200:
             payload = bytes.fromhex(c['payload'])
